@@ -530,6 +530,8 @@ class Builtins:
             raise Unknown("poison operand")
         if isinstance(a, (Digest, Tok)) or isinstance(b, (Digest, Tok)):
             raise Unknown("arithmetic on abstract token")
+        if isinstance(a, ExtV) or isinstance(b, ExtV):
+            raise Unknown(f"operator on an unmodelled external value ({a!r} {T.__name__} {b!r})")
         raise Raised(self.mkexc("TypeError", f"unsupported operand type(s) for {T.__name__}: {self.typename(a)!r} and {self.typename(b)!r}"))
 
     def _symstr_chars(self, s):
